@@ -17,10 +17,12 @@ fn reason_of(dirs: &[async_graphql::Positioned<ConstDirective>]) -> Option<Optio
 pub fn sdl(args: &Value) -> Outcome {
     let desc = args["desc"].as_str();
     let default = args["default"].as_i64();
+    let null_default = args["default"] == "null";
     let dep: Option<Option<&str>> = match &args["dep"] { Value::Null => None, Value::String(s) if s.is_empty() => Some(None), Value::String(s) => Some(Some(s.as_str())), _ => None };
     let mk = |name: &str| {
         let mut iv = InputValue::new(name, TypeRef::named(TypeRef::INT));
         if let Some(d) = default { iv = iv.default_value(GqlValue::from(d)); }
+        if null_default { iv = iv.default_value(GqlValue::Null); }
         if let Some(r) = dep { iv = iv.deprecation(r); }
         if let Some(d) = desc { iv = iv.description(d); }
         iv
@@ -31,7 +33,10 @@ pub fn sdl(args: &Value) -> Outcome {
     let mut q = Object::new("Query").field(f);
     if let Some(d) = desc { q = q.description(d); }
     let input = InputObject::new("In").field(mk("fld"));
-    let schema = Schema::build("Query", None, None).register(input).register(q)
+    let federation = args["federation"].as_bool().unwrap_or(false);
+    let mut sb = Schema::build("Query", None, None);
+    if federation { sb = sb.enable_federation(); }
+    let schema = sb.register(input).register(q)
         .register(Object::new("Unused").field(Field::new("x", TypeRef::named(TypeRef::INT), |_| FieldFuture::new(async { Ok(None::<GqlValue>) })).argument(InputValue::new("i", TypeRef::named("In")))))
         .finish().unwrap();
     let mut opts = SDLExportOptions::new();
@@ -45,7 +50,7 @@ pub fn sdl(args: &Value) -> Outcome {
     let chk_iv = |who: &str, d: &InputValueDefinition| {
         seen.set(seen.get() + 1);
         let got_def = d.default_value.as_ref().map(|v| v.node.to_string());
-        if got_def != default.map(|x| x.to_string()) { bad.borrow_mut().push(format!("{}: default {:?}", who, got_def)); }
+        if got_def != default.map(|x| x.to_string()).or(if null_default { Some("null".to_string()) } else { None }) { bad.borrow_mut().push(format!("{}: default {:?}", who, got_def)); }
         if reason_of(&d.directives) != exp_dep { bad.borrow_mut().push(format!("{}: deprecation {:?}", who, reason_of(&d.directives))); }
         if d.description.as_ref().map(|x| x.node.clone()) != exp_desc { bad.borrow_mut().push(format!("{}: description {:?}", who, d.description.as_ref().map(|x| x.node.clone()))); }
     };
@@ -65,6 +70,22 @@ pub fn sdl(args: &Value) -> Outcome {
             }
         }
     }
+    // the document is closed: every type it mentions is defined in it (or is a built-in scalar)
+    {
+        let mut defined: Vec<String> = ["Int", "Float", "String", "Boolean", "ID"].iter().map(|x| x.to_string()).collect();
+        let mut used: Vec<String> = Vec::new();
+        fn base(t: &Type) -> String { match &t.base { BaseType::Named(n) => n.to_string(), BaseType::List(i) => base(i) } }
+        for def in &doc.definitions { if let TypeSystemDefinition::Type(ty) = def {
+            defined.push(ty.node.name.node.to_string());
+            match &ty.node.kind {
+                TypeKind::Object(o) => { for f in &o.fields { used.push(base(&f.node.ty.node)); for a in &f.node.arguments { used.push(base(&a.node.ty.node)); } } for i in &o.implements { used.push(i.node.to_string()); } }
+                TypeKind::Interface(o) => { for f in &o.fields { used.push(base(&f.node.ty.node)); for a in &f.node.arguments { used.push(base(&a.node.ty.node)); } } }
+                TypeKind::InputObject(o) => { for f in &o.fields { used.push(base(&f.node.ty.node)); } }
+                TypeKind::Union(u) => { for m in &u.members { used.push(m.node.to_string()); } }
+                _ => {}
+            } } }
+        for u in used { if !defined.contains(&u) { bad.borrow_mut().push(format!("SDL mentions type {} but does not define it", u)); } }
+    }
     if seen.get() != 2 { bad.borrow_mut().push(format!("expected 2 input values in the re-parsed SDL, found {}", seen.get())); }
     let bad = bad.into_inner();
     Outcome { holds: bad.is_empty(), observed: if bad.is_empty() { "all descriptions / defaults / deprecations read back".into() } else { bad.join("; ") }, expected: format!("desc {:?} default {:?} deprecation {:?}", exp_desc, default, exp_dep) }
@@ -76,6 +97,11 @@ pub fn inputs(seed: u64, open: &[String]) -> impl Iterator<Item = Value> {
     let deps: Vec<Value> = vec![json!(null), json!(""), json!("use other"), json!("use \"other\" instead"), json!("a\\b"), json!("line\nbreak"), json!("\u{1F600}")];
     let mut out = Vec::new();
     let mut r = Rng(seed);
+    for fed in [false, true] { for sl in [false, true] {
+        out.push(json!({"desc": null, "default": "null", "dep": null, "single_line": sl, "federation": fed}));
+        out.push(json!({"desc": "d", "default": "null", "dep": "gone", "single_line": sl, "federation": fed}));
+        out.push(json!({"desc": "plain", "default": 5, "dep": "", "single_line": sl, "federation": fed}));
+    } }
     for d in &descs { for dep in &deps { for def in [None, Some(10i64), Some(-3)] { for sl in [false, true] {
         if r.below(3) == 0 && !(d.is_none() || dep.is_null()) { continue; }
         if skip_indent { if let Some(t) = d { if t.starts_with(' ') || t.starts_with('\t') { continue; } } }
